@@ -148,6 +148,7 @@ func TestVerifC09filter(t *testing.T) {
 								if reloadAt > 0 && i == reloadAt {
 									g2 := c09fNew(c09fSpec(limit, timeout, addSecond, explicit, newDefault))
 									g2.Inherit(f)
+									f.Close() // what Pipeline.Inherit does with the previous generation right after
 									f = g2
 								}
 								time.Sleep(s.gap)
